@@ -4,7 +4,8 @@ CONSTANTS
   MaxVer = 2
   MaxReorgs = 2
   MaxCrashes = 0
-  Gated = TRUE
+  Gates = {"att", "prop"}
+  Interleave = FALSE
   Cfgs <- MCCfgsOne
   OraclesFor <- MCOraclesA
 INVARIANTS TypeOK JobTimeRight JobCoversExactly OnlyStrictlyLaterOnStart SyncWindowRight EpochTickOnce NoFutureDutyUnscheduled ReorgActedOn
